@@ -530,21 +530,20 @@ class Interp(Exec):
         raise Unsupported(f"binary {type(op).__name__} on {a!r}, {b!r}")
 
     def str_repeat(self, s, n, st=None):
-        """s * n as an uninterpreted function; for a literal s the facts of Python's str.__mul__ that hold for every
-        n are recorded once per literal as axioms: the length, and for a one-character literal every character."""
+        """s * n as an uninterpreted function; for a literal s the facts of Python's str.__mul__ are recorded for this
+        occurrence as axioms: the length, and for a one-character literal every character."""
         f = self.ctx.ufunc("str_repeat", z3.StringSort(), z3.IntSort(), z3.StringSort())
         s2 = z3.simplify(s)
+        t = f(s2, n)
         if st is not None and z3.is_string_value(s2):
-            key = ("str_repeat_ax", s2.as_string())
+            key = ("str_repeat_ax", t.sexpr())
             if key not in st.ghost:
                 st.ghost[key] = True
-                m = z3.Int("rx!n")
-                k = z3.Int("rx!k")
                 ln = len(s2.as_string())
-                st.axioms.append(z3.ForAll([m], z3.Length(f(s2, m)) == z3.If(m > 0, ln * m, 0)))
+                st.axioms.append(z3.Length(t) == z3.If(n > 0, ln * n, 0))
                 if ln == 1:
-                    st.axioms.append(z3.ForAll([m], z3.InRe(f(s2, m), z3.Star(z3.Re(s2)))))
-        return f(s, n)
+                    st.axioms.append(z3.InRe(t, z3.Star(z3.Re(s2))))
+        return t
 
     def lin_binop(self, st, op, a, b, node):
         def t(x):
